@@ -5,7 +5,7 @@ CONFIG = {
     "properties_files": ["theories/Dir/Properties.v"],
     "required_theorems": ["trace_ok_model", "trace_ok_refuted", "dir_refines", "changeid_strict", "readdir_complete", "reachable_well_formed"],
     "harnesses": [
-        {"cmd": "dir", "cases_quick": 320, "cases_thorough": 12000, "shards_quick": 8, "shards_thorough": 32},
+        {"cmd": "dir", "cases_quick": 320, "cases_thorough": 8000, "shards_quick": 8, "shards_thorough": 32, "race": True},
     ],
     # the dir harness also reports leaked directory locks ("C14:lock-leak:<method>"); those belong to C14
     "violation_kinds": ["C13:"],
@@ -22,7 +22,7 @@ CONFIG = {
         "design_ref": "DESIGN.md §4 Dir — C13",
     },
     "assumptions": [
-        "single-threaded histories (lock order and concurrent re-seek in VirtualReadDir are not exercised; C14 covers lock balance)",
+        "histories are sequential except for one scripted race (VirtualReadDir dropping its lock while a mutation of the same directory runs); other interleavings and LockPile ordering are not explored (C14 covers lock balance)",
         "uint64 change counters modelled as N (no wrap-around)",
         "directories are created with EmptyInitialContentsFetcher (lazy non-empty contents: C17)",
     ],
